@@ -85,8 +85,8 @@ Proof. exact admitted_after_expiry. Qed.
 (* ---- connection manager ---- *)
 
 (* never holds more than the target *)
-Theorem C18_conns_le_target : forall T mf evs,
-  0 <= T -> ConnMgr.zlen (conns (crun (cinit T mf) evs)) <= T.
+Theorem C18_conns_le_target : forall T mf hb evs,
+  0 <= T -> ConnMgr.zlen (conns (crun (cinit T mf hb) evs)) <= T.
 Proof. exact conns_le_target. Qed.
 
 (* every slot is a connection, a request in flight, an armed retry timer, or was given up on behalf of
@@ -95,38 +95,38 @@ Proof. exact conns_le_target. Qed.
    History: before fix 7026b86 the sum also contained the number of address bans - at the 25th failure
    of an address registerFailedConnectionTo banned it and returned without a successor request, and
    C18_ban_loses_slot refuted "quiescent => target established". *)
-Theorem C18_slot_conservation : forall T mf evs,
+Theorem C18_slot_conservation : forall T mf hb evs,
   0 <= T ->
-  let s := crun (cinit T mf) evs in
+  let s := crun (cinit T mf hb) evs in
   ConnMgr.zlen (conns s) + ConnMgr.zlen (tasks s) + timers s + canceled s = T.
 Proof. exact slot_conservation. Qed.
 
 (* on the server's alphabet (Disconnect only for ids learnt through OnConnection, never for a request
    in flight; no Remove) nothing is ever given up *)
-Theorem C18_no_cancel : forall T mf evs,
-  server_alphabet (cinit T mf) evs -> canceled (crun (cinit T mf) evs) = 0.
+Theorem C18_no_cancel : forall T mf hb evs,
+  server_alphabet (cinit T mf hb) evs -> canceled (crun (cinit T mf hb) evs) = 0.
 Proof. exact no_cancel. Qed.
 
 (* keeps asking for addresses and dialling until the target is established: when nothing is in
    flight any more the target IS established ... *)
-Theorem C18_quiescent_full : forall T mf evs,
-  0 <= T -> server_alphabet (cinit T mf) evs ->
-  let s := crun (cinit T mf) evs in
+Theorem C18_quiescent_full : forall T mf hb evs,
+  0 <= T -> server_alphabet (cinit T mf hb) evs ->
+  let s := crun (cinit T mf hb) evs in
   quiescent s -> ConnMgr.zlen (conns s) = T.
 Proof. exact quiescent_full. Qed.
 
 (* ... and below the target a request is in flight or a retry timer is armed *)
-Theorem C18_still_trying : forall T mf evs,
-  0 <= T -> server_alphabet (cinit T mf) evs ->
-  let s := crun (cinit T mf) evs in
+Theorem C18_still_trying : forall T mf hb evs,
+  0 <= T -> server_alphabet (cinit T mf hb) evs ->
+  let s := crun (cinit T mf hb) evs in
   ConnMgr.zlen (conns s) < T -> tasks s <> [] \/ 0 < timers s.
 Proof. exact still_trying. Qed.
 
 (* for arbitrary callers of the public Disconnect / Remove: exactly the slots given up on their behalf
    (requests canceled in flight, connections removed without retry) are missing *)
-Theorem C18_quiescent_full_any : forall T mf evs,
+Theorem C18_quiescent_full_any : forall T mf hb evs,
   0 <= T ->
-  let s := crun (cinit T mf) evs in
+  let s := crun (cinit T mf hb) evs in
   quiescent s -> ConnMgr.zlen (conns s) = T - canceled s.
 Proof. exact quiescent_full_any. Qed.
 
@@ -140,19 +140,32 @@ Theorem C18_request_progress : forall s id,
      conns (cstep s (DialOk id)) = conns s ++ [(id, a)]).
 Proof. exact request_progress. Qed.
 
-(* replaces an outbound connection that closes - always (also when its address gets banned) *)
-Theorem C18_replaces_closed : forall T mf evs id a,
+(* replaces an outbound connection that closes - always (also when its address gets banned); hasban =
+   a BanAddress callback is configured, as in the server *)
+Theorem C18_replaces_closed : forall T mf hb evs id a,
   0 <= T ->
-  let s := crun (cinit T mf) evs in
+  let s := crun (cinit T mf hb) evs in
+  hasban s = true ->
   conn_addr (conns s) id = Some a ->
   let s' := cstep s (Disconnect id) in
   ConnMgr.zlen (conns s') = ConnMgr.zlen (conns s) - 1 /\
   tasks s' = tasks s ++ [(next s + 1, Created)].
 Proof. exact replaces_closed. Qed.
 
+(* in any configuration the closed connection is replaced by a request or - when the global failure
+   counter is at its threshold and no BanAddress callback is configured - by an armed retry timer *)
+Theorem C18_replaces_closed_any : forall T mf hb evs id a,
+  0 <= T ->
+  let s := crun (cinit T mf hb) evs in
+  conn_addr (conns s) id = Some a ->
+  let s' := cstep s (Disconnect id) in
+  ConnMgr.zlen (conns s') = ConnMgr.zlen (conns s) - 1 /\
+  ConnMgr.zlen (tasks s') + timers s' = ConnMgr.zlen (tasks s) + timers s + 1.
+Proof. exact replaces_closed_any. Qed.
+
 (* the states visited by the correspondence check's script layer are states of this model *)
-Theorem C18_script_states_reachable : forall T mf sevs,
-  exists evs, core (fold_left (fun x e => fst (sstep x e)) sevs (sinit T mf)) = crun (cinit T mf) evs.
+Theorem C18_script_states_reachable : forall T mf hb sevs,
+  exists evs, core (fold_left (fun x e => fst (sstep x e)) sevs (sinit T mf hb)) = crun (cinit T mf hb) evs.
 Proof. exact script_states_reachable. Qed.
 
 Print Assumptions C18_count_le_max.
@@ -172,4 +185,5 @@ Print Assumptions C18_still_trying.
 Print Assumptions C18_quiescent_full_any.
 Print Assumptions C18_request_progress.
 Print Assumptions C18_replaces_closed.
+Print Assumptions C18_replaces_closed_any.
 Print Assumptions C18_script_states_reachable.
